@@ -12,7 +12,7 @@ namespace EG
 
 /-! ### the rectangle iterator: its budget bounds what is left; `points = pointsIt.rest` -/
 
-theorem Rect.PointsIt.rest_length_lt_budget (it : Rect.PointsIt) : it.rest.length < it.budget := by
+private theorem Rect.PointsIt.rest_length_lt_budget (it : Rect.PointsIt) : it.rest.length < it.budget := by
   unfold Rect.PointsIt.budget
   by_cases hy : it.y < it.yEnd
   · rw [Rect.PointsIt.rest_length it hy]
